@@ -186,7 +186,7 @@ func (e *c16Env) handleAnswer(w http.ResponseWriter, r *http.Request) {
 		apply()
 		select {
 		case <-s.relayConn:
-		case <-time.After(10 * time.Second):
+		case <-time.After(c16Patience(10 * time.Second)):
 		}
 		http.Error(w, "scripted late failure", http.StatusInternalServerError)
 	default: // o q
@@ -221,13 +221,31 @@ func (e *c16Env) handleRelay(w http.ResponseWriter, r *http.Request) {
 	}
 }
 
+// Once a wait has expired (something that must happen did not: the tree under test is defective)
+// later waits of the process are cut short, so that a failing tree is reported quickly.
+var c16Degraded bool
+
+func c16PatienceMin(d, floor time.Duration) time.Duration {
+	if c16Degraded && d > floor {
+		return floor
+	}
+	return d
+}
+
+func c16Patience(d time.Duration) time.Duration { return c16PatienceMin(d, 250*time.Millisecond) }
+
 func c16GuardFor(d time.Duration, f func()) bool {
 	done := make(chan struct{})
 	go func() { f(); close(done) }()
+	extra := d - 3*time.Second // real timers (20 s, 5 s) are never cut
+	if extra < 0 {
+		extra = 0
+	}
 	select {
 	case <-done:
 		return true
-	case <-time.After(d):
+	case <-time.After(c16PatienceMin(d-extra, time.Second) + extra):
+		c16Degraded = true
 		return false
 	}
 }
@@ -238,9 +256,12 @@ func c16ChLen() int { return len(tokens.ch) }
 
 // wait until count (and the channel length, when there is a channel) moved away from the given values
 func c16WaitChange(count int64, chl int) {
-	deadline := time.Now().Add(3 * time.Second)
+	deadline := time.Now().Add(c16Patience(3 * time.Second))
 	for time.Now().Before(deadline) && tokens.count() == count {
 		time.Sleep(2 * time.Millisecond)
+	}
+	if tokens.count() == count {
+		c16Degraded = true
 	}
 	if tokens.capacity != 0 {
 		d2 := time.Now().Add(500 * time.Millisecond)
@@ -331,7 +352,8 @@ func (e *c16Env) op(o string) string {
 	case 'o', 'A':
 		select {
 		case <-s.relayConn:
-		case <-time.After(8 * time.Second):
+		case <-time.After(c16Patience(8 * time.Second)):
+			c16Degraded = true
 		}
 	case 'q':
 		c16WaitChange(before, chl)
@@ -469,7 +491,7 @@ func c16Case(args []string) string {
 		}
 	}
 	residual := int64(strings.Count(args[2], "+") - strings.Count(args[2], "-"))
-	deadline := time.Now().Add(3 * time.Second)
+	deadline := time.Now().Add(c16Patience(3 * time.Second))
 	for time.Now().Before(deadline) && tokens.count() > residual {
 		time.Sleep(2 * time.Millisecond)
 	}
